@@ -249,6 +249,7 @@ class SimLoop(asyncio.SelectorEventLoop):
         self.after_step_hook = None
         self.io_events = 0
         self.idle_jumps = 0         # clock jumps because nothing was runnable
+        self._leftover = False
 
     def time(self):
         return self.sim.now
@@ -293,7 +294,14 @@ class SimLoop(asyncio.SelectorEventLoop):
             handle = heapq.heappop(sched)
             handle._scheduled = False
 
-        event_list = self._selector.select(0)
+        # after an early stop (stop condition reached in the middle of a
+        # batch) the rest of that batch runs first: polling again would queue
+        # a second callback for descriptors whose first one has not run yet
+        if self._leftover and self._ready:
+            event_list = None
+        else:
+            event_list = self._selector.select(0)
+        self._leftover = False
         if event_list:
             if len(event_list) > 1:
                 ro = self._regorder
@@ -345,10 +353,12 @@ class SimLoop(asyncio.SelectorEventLoop):
                 self.after_step_hook()
             if sim.capped or sim.hung:
                 self._stopping = True
+                self._leftover = True
                 break
             c = self.stop_cond
             if c is not None and c():
                 self._stopping = True
+                self._leftover = True
                 break
         handle = None
 
